@@ -2,6 +2,7 @@ import GitSizer.Driver.Counts
 import GitSizer.Driver.Human
 import GitSizer.Driver.Parsers
 import GitSizer.Driver.Config
+import GitSizer.Driver.Refs
 /-! `gsmodel`: reads case lines (engine TAB id TAB input… TAB => TAB observed…) on stdin and
     prints one verdict line per case: id TAB verdict… -/
 open GitSizer.Driver
@@ -13,6 +14,7 @@ def engineOf (name : String) : Option Engine :=
   | "parsers" => some parsersEngine
   | "config" => some configEngine
   | "confige2e" => some configE2EEngine
+  | "refs" => some refsEngine
   | _ => none
 
 def splitCase (fields : List String) : List String × List String :=
